@@ -350,6 +350,13 @@ def run(tier, seed):
     try:
         ok, blog = coq_build(["props/C15.vo", "corr/C15corr.vo", "corr/C15f3.vo"])
         proofs_ok, pa = proof_obligations(work, res, "C15.v", ok, blog)
+        if ok:
+            # the model's classification proved equal to the if-chain of handleProxyError as the source has it on this run
+            import gentie
+            g_ok, g_log = gentie.gen_tie(work, res, only=("gen_handle_proxy_error",))
+            if not g_ok:
+                proofs_ok = False
+                pa += "\n" + g_log
         cases = gen_cases(seed, tier)
         stalls = gen_stall_cases(seed, tier)
         harness_ok, hout, obs, sobs = execute(work, cases, stalls)
